@@ -358,10 +358,12 @@ static std::string jstr(const std::string &s) {
 	}
 	return o + "\"";
 }
+static double g_slowest_cpu = 0; static uint64_t g_slowest_idx = 0;
+static double cpu_s() { struct timespec ts; clock_gettime(CLOCK_PROCESS_CPUTIME_ID, &ts); return (double) ts.tv_sec + 1e-9 * (double) ts.tv_nsec; }
 static void print_stats(const Stats &st, uint64_t runs, uint64_t discards, uint64_t events, double secs, const char *states_file) {
 	std::string s = "{";
 	s += "\"runs\":" + std::to_string(runs) + ",\"discarded\":" + std::to_string(discards) + ",\"events\":" + std::to_string(events);
-	char b[64]; snprintf(b, sizeof b, ",\"secs\":%.3f", secs); s += b;
+	char b[96]; snprintf(b, sizeof b, ",\"secs\":%.3f,\"slowest_run_cpu_s\":%.3f,\"slowest_run_index\":%llu", secs, g_slowest_cpu, (unsigned long long) g_slowest_idx); s += b;
 	s += ",\"states\":" + std::to_string(st.states.size()) + ",\"schedules\":" + std::to_string(st.schedules.size());
 	s += ",\"counters\":{";
 	bool first = true;
@@ -453,9 +455,11 @@ int sim_main(int argc, char **argv) {
 			printf("S %llu\n", (unsigned long long) i);
 			if (flush_each) fflush(stdout);      // keeps the seed markers in order with what a tool like valgrind writes to stderr
 			arm_watchdog(20);
+			double c0 = cpu_s();
 			Plan p = make_plan(w, base, i, tier);
 			Result r = run_plan(w, p, false, st);
 			disarm_watchdog();
+			{ double c = cpu_s() - c0; if (c > g_slowest_cpu) { g_slowest_cpu = c; g_slowest_idx = i; } }      // reported only, never part of a decision
 			++runs; events += r.events;
 			if (r.discard) { ++disc; st.hit("discard:" + r.detail); }
 			if (!r.sig.empty()) { printf("V %llu %s\n", (unsigned long long) i, r.sig.c_str()); ++viol; }
